@@ -369,5 +369,62 @@ def r5_yaml(chk: Check) -> None:
     chk.decide(n_use >= 3, "C08.R5", dy, f"deserialize_yaml used by the loaders ({n_use} sites)", "fewer call sites than confirmed by hand (3)", dy.loc())
 
 
+# --------------------------------------------------------------------------------------------- R6
+def r6_iteration_local_scope(chk: Check) -> None:
+    chk.rule("C08.R6", "ITERATION-LOCAL(resolution scope): in every loop over the documented paths, a variable that receives the scope / resolved item of `resolve(...)` is assigned on every path of the iteration before it is used (otherwise an inline path item is processed with the scope of the previous, $ref-ed one)", floor=3)
+    P = chk.project
+    from ..astutil import assigned_names
+
+    n_sites = 0
+    for fn in P.module(OAS).functions.values():
+        for loop in [n for n in walk_body(fn.node) if isinstance(n, ast.For)]:
+            it = unparse(loop.iter, 200)
+            if not (("paths" in it or "path" in it) and it.endswith(".items()")):
+                continue
+            # variables tuple-assigned from a resolve call inside this loop body
+            cands: dict[str, ast.stmt] = {}
+            for s in iter_stmts(loop.body):
+                if isinstance(s, ast.Assign) and isinstance(s.targets[0], ast.Tuple) and isinstance(s.value, ast.Call) and "resolve" in (unparse(s.value.func, 80)).lower():
+                    for t in s.targets[0].elts:
+                        if isinstance(t, ast.Name) and t.id != "_" and t.id not in assigned_names(loop.target):
+                            cands.setdefault(t.id, s)
+            if not cands:
+                continue
+            g = cfg_of(fn)
+            head = [n.id for n in g.live() if n.kind == "for" and n.ast is loop]
+            starts = [m for h in head for m, lbl in g.nodes[h].succ if lbl == "iter"]
+            for var, first in cands.items():
+                n_sites += 1
+                defs = [n.id for n in g.live() if n.kind in ("stmt", "for", "with") and n.ast is not None and is_within(n.ast, loop) and (
+                    (isinstance(n.ast, (ast.Assign, ast.AnnAssign, ast.AugAssign)) and var in assigned_names(n.ast.targets[0] if isinstance(n.ast, ast.Assign) else n.ast.target))
+                    or (isinstance(n.ast, ast.Assign) and any(var in assigned_names(t) for t in n.ast.targets))
+                    or (n.kind == "for" and isinstance(n.ast, ast.For) and n.ast is not loop and var in assigned_names(n.ast.target)))]
+                uses = []
+                for n in g.live():
+                    if n.ast is None or not is_within(n.ast, loop) or n.id in defs:
+                        continue
+                    if n.kind == "for" and isinstance(n.ast, ast.For):
+                        tgts: list[ast.AST] = [n.ast.iter]
+                    elif n.kind == "with" and isinstance(n.ast, ast.With):
+                        tgts = [i.context_expr for i in n.ast.items]
+                    else:
+                        tgts = [n.ast]
+                    if n.kind in ("stmt", "test", "for", "with") and any(isinstance(x, ast.Name) and x.id == var and isinstance(x.ctx, ast.Load) for t_ in tgts for x in [t_, *walk_local(t_)]):
+                        uses.append(n.id)
+                construct = f"`{var}` (from {unparse(first.value.func, 40)}(...)) is assigned in every iteration before use"  # type: ignore[attr-defined]
+                if not uses:
+                    chk.ok("C08.R6", fn, construct, "not used in the loop", fn.loc(first))
+                    continue
+                w = g.path(starts, uses, avoid=defs + head, edge_ok=lambda a, b, lbl: not lbl.startswith("exc:"))
+                if w is None:
+                    chk.ok("C08.R6", fn, construct, "", fn.loc(first))
+                else:
+                    chk.violation("C08.R6", fn, construct,
+                                  f"on some path of an iteration `{var}` keeps the value of the PREVIOUS path item: an inline path item that follows a $ref-ed one is registered / built with the other document's resolution scope, so its references resolve against the wrong file and lookups by id and by path stop returning the same operation",
+                                  fn.loc(first), g.describe_path(w, fn.module.relpath))
+    if n_sites < 3:
+        chk.undecided("C08.R6", "<discovery>", f"sites={n_sites}", "fewer per-iteration scope variables than confirmed by hand (3)")
+
+
 def rules(tier: str) -> list:  # type: ignore[type-arg]
-    return [r1_scope_pairs, r2_merge_order, r3_constructors, r4_no_drop, r5_yaml]
+    return [r1_scope_pairs, r2_merge_order, r3_constructors, r4_no_drop, r5_yaml, r6_iteration_local_scope]
